@@ -1,10 +1,833 @@
+// C06: arrays are values — writes through a copy never show through the original.
+//
+// Form H over a complete matrix: shape (8) x aliasing route (12) x mutation (23) x mutated side
+// (copy | original), and every chain of two routes x mutation x mutated name; thorough adds
+// sequences of two mutations. Every case
+// is one script on a fresh parser + VM that prints a json_encode+serialize snapshot of every live
+// name before and after each mutation.
+//
+//	deciding oracle   the snapshot of every name that was NOT mutated is identical before and after
+//	                  (observed vs. observed inside the same run; no model involved)
+//	vacuity guard     the mutated name did change, and equals an independent Go model of PHP arrays
+//	                  (model.go) where the mutation's effect is modelled
+//	controls          `$b = &$a`, `function f(&$p)`, `$q = $o` (object handle): here the write MUST
+//	                  show through, which proves the snapshot oracle can see a shared write
+//	object half       handles share scalar and array-valued properties, `clone` separates them
+//
+// Finding key = leak:<route>:<mutation class>; shape, concrete mutation and side are reported in
+// the detail but are not part of the key (one copy mechanism x one kind of write = one root cause).
 package main
 
-import "os"
+import (
+	"encoding/json"
+	"fmt"
+	"os"
+	"sort"
+	"strings"
+	"time"
+
+	"verif/engine/ev"
+	"verif/engine/pool"
+	"verif/engine/runner"
+)
+
+// ---- judging one case ---------------------------------------------------------------------------
+
+type leak struct {
+	Step   int    `json:"step"`
+	From   int    `json:"from"` // mutated name
+	To     int    `json:"to"`   // name whose snapshot changed
+	Class  string `json:"class"`
+	Before string `json:"before"`
+	After  string `json:"after"`
+}
+
+type outcome struct {
+	Evaluable bool
+	Reason    string
+	Snaps     [][]string
+	Errored   []bool
+	Effective []bool
+	Agree     []int // 1 model agrees, 0 differs, -1 not modelled
+	Leaks     []leak
+	NoThrough []int // control cases: steps whose write did not show through
+	OuterLeak bool  // param route: caller-side names changed although only the parameter was written
+	CopyDiff  bool  // a copy did not equal the original right after the route
+	B         built
+}
+
+func jsonPart(s string) string {
+	if i := strings.Index(s, "~"); i >= 0 {
+		return s[:i]
+	}
+	return s
+}
+
+func judge(k kase) outcome {
+	b := k.build()
+	o := outcome{B: b}
+	if !b.ok {
+		o.Reason = "not-applicable"
+		return o
+	}
+	res := runner.Run(b.script, runner.Opts{})
+	var pLine, fLine []string
+	o.Errored = make([]bool, len(k.Steps))
+	for _, ln := range strings.Split(res.Out, "\n") {
+		f := strings.Split(ln, "|")
+		switch f[0] {
+		case "S":
+			o.Snaps = append(o.Snaps, f[1:])
+		case "P":
+			pLine = f[1:]
+		case "F":
+			fLine = f[1:]
+		case "E":
+			var j int
+			if len(f) > 1 {
+				fmt.Sscan(f[1], &j)
+				if j >= 0 && j < len(o.Errored) {
+					o.Errored[j] = true
+				}
+			}
+		}
+	}
+	if res.Kind != "ok" {
+		o.Reason = "script:" + res.Kind
+		if res.PanicKey != "" {
+			o.Reason += ":" + res.PanicKey
+		} else if res.Msg != "" {
+			o.Reason += ":" + res.Msg
+		}
+		return o
+	}
+	if len(o.Snaps) != len(k.Steps)+1 {
+		o.Reason = fmt.Sprintf("snapshots:%d/%d", len(o.Snaps), len(k.Steps)+1)
+		return o
+	}
+	for _, s := range o.Snaps {
+		if len(s) != b.names {
+			o.Reason = "snapshot-arity"
+			return o
+		}
+	}
+	for _, s := range o.Snaps[0][1:] {
+		if s != o.Snaps[0][0] {
+			// the route did not produce a copy equal to the original (e.g. a store that spreads its
+			// argument): the premise of the case is gone, nothing is judged
+			o.CopyDiff = true
+			o.Reason = "route-result-differs-from-original"
+			return o
+		}
+	}
+	o.Evaluable = true
+	ctl := ""
+	for _, n := range k.Routes {
+		if r, _ := routeByName(n); r.control != "" {
+			ctl = r.control
+		}
+	}
+	onlyInner := true
+	for j, st := range k.Steps {
+		prev, cur := o.Snaps[j], o.Snaps[j+1]
+		eff := prev[st.Target] != cur[st.Target]
+		o.Effective = append(o.Effective, eff)
+		switch {
+		case b.models[j] == "":
+			o.Agree = append(o.Agree, -1)
+		case jsonPart(cur[st.Target]) == b.models[j]:
+			o.Agree = append(o.Agree, 1)
+		default:
+			o.Agree = append(o.Agree, 0)
+		}
+		if st.Target != b.names-1 {
+			onlyInner = false
+		}
+		for u := range cur {
+			if u == st.Target {
+				continue
+			}
+			if ctl != "" {
+				// aliases: both names must show the same value after the write
+				if eff && cur[u] != cur[st.Target] {
+					o.NoThrough = append(o.NoThrough, j)
+				}
+				continue
+			}
+			if cur[u] != prev[u] {
+				o.Leaks = append(o.Leaks, leak{Step: j, From: st.Target, To: u, Class: b.classes[j], Before: prev[u], After: cur[u]})
+			}
+		}
+	}
+	if ctl == "" && pLine != nil && fLine != nil && onlyInner && strings.Join(pLine, "|") != strings.Join(fLine, "|") {
+		o.OuterLeak = true
+	}
+	return o
+}
+
+// routeBetween names the copy mechanism that separates names i and j.
+func routeBetween(k kase, i, j int) string {
+	if i > j {
+		i, j = j, i
+	}
+	return strings.Join(k.Routes[i:j], "+")
+}
+
+// ---- keys ---------------------------------------------------------------------------------------
+
+type finding struct {
+	Key, Clause, Detail string
+	Size                int
+	Case                kase
+}
+
+type judgeCache struct {
+	m    map[string]outcome
+	runs int64
+}
+
+func (c *judgeCache) get(k kase) outcome {
+	s := k.String() + fmt.Sprint(k.Rot)
+	if o, ok := c.m[s]; ok {
+		return o
+	}
+	if len(c.m) > 50000 {
+		c.m = map[string]outcome{}
+	}
+	c.runs++
+	o := judge(k)
+	o.Snaps, o.B.script = nil, ""
+	c.m[s] = o
+	return o
+}
+
+func hasLeak(o outcome, route func(l leak) string, rt, class string) bool {
+	for _, l := range o.Leaks {
+		if route(l) == rt && l.Class == class {
+			return true
+		}
+	}
+	return false
+}
+
+// findings reduces the leaks of a case to finding keys. A leak seen in a chain or after an
+// earlier mutation is re-tried as the single-route / single-mutation case; only if that smaller
+// case does not show the same (route, class) leak does the composite stay in the key.
+func findings(k kase, o outcome, jc *judgeCache) []finding {
+	var out []finding
+	seen := map[string]bool{}
+	add := func(key, clause string, l *leak, c kase, size int) {
+		if seen[key] {
+			return
+		}
+		seen[key] = true
+		d := "case: " + c.String() + "\n" + describe(c)
+		out = append(out, finding{Key: key, Clause: clause, Detail: d, Size: size, Case: c})
+	}
+	if o.OuterLeak {
+		add("leak:"+k.Routes[len(k.Routes)-1]+":"+o.B.classes[0], "leak", nil, k, 12)
+	}
+	for _, l := range o.Leaks {
+		l := l
+		// adjacent-name leaks explain non-adjacent ones of the same step
+		if d := l.From - l.To; (d > 1 || d < -1) && func() bool {
+			for _, m := range o.Leaks {
+				if m.Step == l.Step && m.From == l.From && (m.To-m.From == 1 || m.From-m.To == 1) {
+					return true
+				}
+			}
+			return false
+		}() {
+			continue
+		}
+		rt := routeBetween(k, l.From, l.To)
+		key := "leak:" + rt + ":" + l.Class
+		cur := k
+		size := 10*len(k.Routes) + len(k.Steps)
+		// 1. drop earlier/later mutations
+		if len(k.Steps) > 1 {
+			single := kase{Shape: k.Shape, Routes: k.Routes, Rot: k.Rot, Steps: []step{k.Steps[l.Step]}}
+			so := jc.get(single)
+			if so.Evaluable && hasLeak(so, func(x leak) string { return routeBetween(single, x.From, x.To) }, rt, l.Class) {
+				cur = single
+				size = 10*len(k.Routes) + 1
+			} else {
+				pre := []string{}
+				for _, s := range k.Steps[:l.Step] {
+					pre = append(pre, s.Mut)
+				}
+				key += ":after(" + strings.Join(pre, ",") + ")"
+			}
+		}
+		// 2. drop the other route of a chain
+		if len(cur.Routes) == 2 && !strings.Contains(rt, "+") && len(cur.Steps) == 1 {
+			lo := l.From
+			if l.To < lo {
+				lo = l.To
+			}
+			r, _ := routeByName(cur.Routes[lo])
+			if lo == 0 || r.general {
+				st := cur.Steps[0]
+				st.Target -= lo
+				single := kase{Shape: cur.Shape, Routes: []string{cur.Routes[lo]}, Rot: cur.Rot, Steps: []step{st}}
+				so := jc.get(single)
+				if so.Evaluable && hasLeak(so, func(x leak) string { return routeBetween(single, x.From, x.To) }, rt, l.Class) {
+					cur = single
+					size = 11
+				} else {
+					key = "leak:" + rt + "[in " + strings.Join(cur.Routes, ">") + "]:" + l.Class
+				}
+			}
+		}
+		add(key, "leak", &l, cur, size)
+	}
+	for range o.NoThrough {
+		r := k.Routes[len(k.Routes)-1]
+		if rr, _ := routeByName(r); rr.control == "handle" {
+			add("handle-not-shared:"+o.B.classes[0], "handle", nil, k, 3)
+		}
+	}
+	return out
+}
+
+// describe re-runs a case and writes out script, snapshots and the verdict.
+func describe(k kase) string {
+	o := judge(k)
+	var sb strings.Builder
+	if !o.Evaluable {
+		return "not evaluable: " + o.Reason
+	}
+	for j, st := range k.Steps {
+		fmt.Fprintf(&sb, "step %d: %s   (mutates name %d, class %s)\n", j, o.B.stmts[j], st.Target, o.B.classes[j])
+		for u := range o.Snaps[j] {
+			mark := "  "
+			if u == st.Target {
+				mark = "* "
+			} else if o.Snaps[j][u] != o.Snaps[j+1][u] {
+				mark = "! "
+			}
+			fmt.Fprintf(&sb, "  %sname %d: %s  ->  %s\n", mark, u, jsonPart(o.Snaps[j][u]), jsonPart(o.Snaps[j+1][u]))
+		}
+	}
+	sb.WriteString("(* = mutated name, ! = another name changed: the write leaked)")
+	return sb.String()
+}
+
+// ---- enumeration --------------------------------------------------------------------------------
+
+type shardArg struct {
+	Shape  string   `json:"shape"`
+	Routes []string `json:"routes"`
+	Mode   string   `json:"mode"` // "1x1" | "1x2" | "2x1" | "2x2r" | "objects"
+	Rot    int      `json:"rot"`
+}
+
+var classReps = []string{"set-first", "append", "unset-first", "m-push", "m-sort", "nested-set"}
+
+func stepsFor(mode string, names int) [][]step {
+	var all, reps []step
+	for t := 0; t < names; t++ {
+		for _, m := range mutations() {
+			all = append(all, step{Mut: m.name, Target: t})
+		}
+		for _, m := range classReps {
+			reps = append(reps, step{Mut: m, Target: t})
+		}
+	}
+	var out [][]step
+	switch mode {
+	case "1x1", "2x1":
+		for _, s := range all {
+			out = append(out, []step{s})
+		}
+	case "1x2":
+		for _, s := range all {
+			for _, t := range all {
+				out = append(out, []step{s, t})
+			}
+		}
+	case "2x2r":
+		for _, s := range reps {
+			for _, t := range reps {
+				out = append(out, []step{s, t})
+			}
+		}
+	}
+	return out
+}
+
+type cell struct {
+	Cases, Effective, Leaked int64
+}
+
+type rec struct {
+	Kind     string               `json:"kind"`
+	N        int64                `json:"n,omitempty"`
+	NA       int64                `json:"na,omitempty"`
+	Runs     int64                `json:"runs,omitempty"`
+	Uneval   map[string]int64     `json:"uneval,omitempty"`
+	Matrix   map[string]*cell     `json:"matrix,omitempty"`   // route|class
+	MutStat  map[string]*[4]int64 `json:"mutstat,omitempty"`  // mutation -> steps, effective, model-agree, model-differ
+	Controls map[string]*[2]int64 `json:"controls,omitempty"` // control route -> effective writes, of which shown through
+	CopyDiff int64                `json:"copydiff,omitempty"`
+	Counts   map[string]int64     `json:"counts,omitempty"`
+	Key      string               `json:"key,omitempty"`
+	Clause   string               `json:"clause,omitempty"`
+	Size     int                  `json:"size,omitempty"`
+	Case     any                  `json:"case,omitempty"`
+	Detail   string               `json:"detail,omitempty"`
+	Sample   any                  `json:"sample,omitempty"`
+	Diverge  map[string]string    `json:"diverge,omitempty"` // mutation -> one written-out divergence from the model
+	LeakBy   map[string]int64     `json:"leakby,omitempty"`  // mutation -> leaking steps
+}
+
+func caseJSON(k kase) map[string]any {
+	return map[string]any{"kind": "matrix", "case": k, "text": k.String(), "script": k.build().script}
+}
+
+func matrixWorker(w *pool.W, arg json.RawMessage) {
+	var sh shardArg
+	json.Unmarshal(arg, &sh)
+	if sh.Mode == "objects" {
+		objectWorker(w, sh)
+		return
+	}
+	jc := &judgeCache{m: map[string]outcome{}}
+	r := rec{Kind: "count", Uneval: map[string]int64{}, Matrix: map[string]*cell{}, MutStat: map[string]*[4]int64{}, Controls: map[string]*[2]int64{}, Diverge: map[string]string{}, LeakBy: map[string]int64{}}
+	keyCount := map[string]int64{}
+	names := len(sh.Routes) + 1
+	sampled := false
+	for _, steps := range stepsFor(sh.Mode, names) {
+		k := kase{Shape: sh.Shape, Routes: sh.Routes, Steps: steps, Rot: sh.Rot}
+		if !k.build().ok {
+			r.NA++
+			continue
+		}
+		if !w.Item(k.String()) {
+			continue
+		}
+		r.N++
+		r.Runs++
+		o := judge(k)
+		if !o.Evaluable {
+			r.Uneval[strings.Join(sh.Routes, ">")+" "+o.Reason]++
+			if o.CopyDiff {
+				r.CopyDiff++
+			}
+			continue
+		}
+		ctl := ""
+		if rr, _ := routeByName(sh.Routes[len(sh.Routes)-1]); rr.control != "" {
+			ctl = rr.name
+		}
+		for j, st := range steps {
+			ms := r.MutStat[st.Mut]
+			if ms == nil {
+				ms = &[4]int64{}
+				r.MutStat[st.Mut] = ms
+			}
+			ms[0]++
+			if o.Effective[j] {
+				ms[1]++
+			}
+			if o.Agree[j] == 1 {
+				ms[2]++
+			} else if o.Agree[j] == 0 {
+				ms[3]++
+				if _, ok := r.Diverge[st.Mut]; !ok && len(sh.Routes) == 1 && sh.Routes[0] == "assign" {
+					r.Diverge[st.Mut] = fmt.Sprintf("%s on %s: %s gives %s, PHP model %s", o.B.stmts[j], sh.Shape, jsonPart(o.Snaps[j][st.Target]), jsonPart(o.Snaps[j+1][st.Target]), o.B.models[j])
+				}
+			}
+			for _, l := range o.Leaks {
+				if l.Step == j {
+					r.LeakBy[st.Mut]++
+					break
+				}
+			}
+			if ctl != "" {
+				cs := r.Controls[ctl]
+				if cs == nil {
+					cs = &[2]int64{}
+					r.Controls[ctl] = cs
+				}
+				if o.Effective[j] {
+					cs[0]++
+					through := true
+					for _, x := range o.NoThrough {
+						if x == j {
+							through = false
+						}
+					}
+					if through {
+						cs[1]++
+					}
+				}
+				continue
+			}
+			// matrix cell of every (route adjacent to the mutated name, class)
+			for u := 0; u < names; u++ {
+				if u == st.Target || (u-st.Target != 1 && st.Target-u != 1) {
+					continue
+				}
+				ck := routeBetween(k, st.Target, u) + "|" + o.B.classes[j]
+				c := r.Matrix[ck]
+				if c == nil {
+					c = &cell{}
+					r.Matrix[ck] = c
+				}
+				c.Cases++
+				if o.Effective[j] {
+					c.Effective++
+				}
+				for _, l := range o.Leaks {
+					if l.Step == j && l.To == u {
+						c.Leaked++
+					}
+				}
+			}
+		}
+		fs := findings(k, o, jc)
+		for _, f := range fs {
+			if keyCount[f.Key] == 0 {
+				w.Emit(rec{Kind: "fail", Key: f.Key, Clause: f.Clause, Size: f.Size, Case: caseJSON(f.Case), Detail: f.Detail})
+			}
+			keyCount[f.Key]++
+		}
+		if len(fs) == 0 && !sampled && ctl == "" && o.Effective[0] && o.Agree[0] == 1 && sh.Shape == "list" {
+			sampled = true
+			w.Emit(rec{Kind: "sample", Sample: map[string]any{"case": k.String(), "statement": o.B.stmts[0], "other_name_before": jsonPart(o.Snaps[0][1-steps[0].Target%2]), "other_name_after": jsonPart(o.Snaps[1][1-steps[0].Target%2]), "mutated_after": jsonPart(o.Snaps[1][steps[0].Target]), "verdict": "independent"}})
+		}
+	}
+	r.Runs += jc.runs
+	r.Counts = keyCount
+	w.Emit(r)
+}
+
+// ---- object half ------------------------------------------------------------------------------------
+
+type objCase struct {
+	Link string `json:"link"` // "handle" | "clone"
+	Op   string `json:"op"`
+	Side int    `json:"side"` // 0 = write through the first name, 1 = through the second
+}
+
+var objOps = map[string]string{
+	"set-scalar":  "%s->q = 5;",
+	"incr-scalar": "%s->q += 2;",
+	"set-array":   "%s->p = [7];",
+	"set-dynamic": "%s->p = \"s\";",
+}
+
+func (c objCase) script() string {
+	link := "$n1 = $n0;"
+	if c.Link == "clone" {
+		link = "$n1 = clone $n0;"
+	}
+	names := []string{"$n0", "$n1"}
+	snap := "echo \"S\"; echo \"|\", json_encode($n0->q), \"~\", json_encode($n0->p); echo \"|\", json_encode($n1->q), \"~\", json_encode($n1->p); echo \"\\n\";\n"
+	return prelude + "$n0 = new O();\n$n0->p = [3, 1, 2];\n$n0->q = 1;\n" + link + "\n" + snap +
+		fmt.Sprintf("try { "+objOps[c.Op]+" } catch (Throwable $e) { echo \"E|0\\n\"; }\n", names[c.Side]) + snap
+}
+
+// judgeObj returns "" or the violated clause.
+func judgeObj(c objCase) (clause, detail string, effective bool) {
+	res := runner.Run(c.script(), runner.Opts{})
+	var snaps [][]string
+	for _, ln := range strings.Split(res.Out, "\n") {
+		if f := strings.Split(ln, "|"); f[0] == "S" && len(f) == 3 {
+			snaps = append(snaps, f[1:])
+		}
+	}
+	if res.Kind != "ok" || len(snaps) != 2 {
+		return "uneval", res.Kind + " " + res.Msg + res.PanicKey, false
+	}
+	t, u := c.Side, 1-c.Side
+	effective = snaps[0][t] != snaps[1][t]
+	detail = fmt.Sprintf("%s\nwritten name: %s -> %s\nother name:   %s -> %s", c.script(), snaps[0][t], snaps[1][t], snaps[0][u], snaps[1][u])
+	if c.Link == "handle" {
+		if snaps[1][u] != snaps[1][t] {
+			return "handle", detail, effective
+		}
+		return "", detail, effective
+	}
+	if snaps[1][u] != snaps[0][u] {
+		return "leak", detail, effective
+	}
+	return "", detail, effective
+}
+
+func objectCases() []objCase {
+	var out []objCase
+	ops := []string{}
+	for o := range objOps {
+		ops = append(ops, o)
+	}
+	sort.Strings(ops)
+	for _, l := range []string{"handle", "clone"} {
+		for _, o := range ops {
+			for s := 0; s < 2; s++ {
+				out = append(out, objCase{Link: l, Op: o, Side: s})
+			}
+		}
+	}
+	return out
+}
+
+func objKey(c objCase, clause string) string {
+	if clause == "handle" {
+		return "handle-not-shared:" + c.Op
+	}
+	return "leak:cloneobj:property-" + c.Op
+}
+
+func objectWorker(w *pool.W, sh shardArg) {
+	r := rec{Kind: "count", Uneval: map[string]int64{}, Counts: map[string]int64{}, Controls: map[string]*[2]int64{}}
+	for _, c := range objectCases() {
+		if !w.Item(fmt.Sprint("obj", c)) {
+			continue
+		}
+		r.N++
+		r.Runs++
+		cl, detail, eff := judgeObj(c)
+		if cl == "uneval" {
+			r.Uneval["objects "+detail]++
+			continue
+		}
+		if c.Link == "handle" && eff {
+			cs := r.Controls["handle-property"]
+			if cs == nil {
+				cs = &[2]int64{}
+				r.Controls["handle-property"] = cs
+			}
+			cs[0]++
+			if cl == "" {
+				cs[1]++
+			}
+		}
+		if cl != "" {
+			key := objKey(c, cl)
+			if r.Counts[key] == 0 {
+				w.Emit(rec{Kind: "fail", Key: key, Clause: cl, Size: 2, Case: map[string]any{"kind": "object", "case": c, "script": c.script()}, Detail: detail})
+			}
+			r.Counts[key]++
+		}
+	}
+	w.Emit(r)
+}
+
+// ---- parent -------------------------------------------------------------------------------------------
 
 func main() {
 	if len(os.Args) > 1 && os.Args[1] == "probe" {
 		probeMain(os.Args[2:])
 		return
 	}
+	if pool.IsWorker() {
+		pool.Serve(map[string]pool.Handler{"matrix": matrixWorker})
+	}
+	c := ev.New("C06")
+	defer runner.Cleanup()
+	if c.Replay != "" {
+		replay(c)
+		return
+	}
+	c.SetBudget(4*time.Minute, 40*time.Minute)
+	rot := int(c.Seed % 5)
+	if rot < 0 {
+		rot = -rot
+	}
+	var shards []pool.Shard
+	add := func(shape string, rs []string, mode string) {
+		shards = append(shards, pool.Shard{Kind: "matrix", Arg: shardArg{Shape: shape, Routes: rs, Mode: mode, Rot: rot}})
+	}
+	chains := 0
+	for _, s := range shapes() {
+		for _, r := range routes() {
+			add(s.name, []string{r.name}, "1x1")
+			if !c.Quick() {
+				add(s.name, []string{r.name}, "1x2")
+			}
+		}
+		for _, r := range controls() {
+			add(s.name, []string{r.name}, "1x1")
+		}
+		{
+			for _, r1 := range routes() {
+				for _, r2 := range routes() {
+					if !r2.general || (r1.name == "param" && r2.name == "param") {
+						continue
+					}
+					add(s.name, []string{r1.name, r2.name}, "2x1")
+					if !c.Quick() {
+						add(s.name, []string{r1.name, r2.name}, "2x2r")
+					}
+					chains++
+				}
+			}
+		}
+	}
+	shards = append(shards, pool.Shard{Kind: "matrix", Arg: shardArg{Mode: "objects"}})
+
+	var total, na, runs, copyDiff int64
+	uneval := map[string]int64{}
+	matrix := map[string]*cell{}
+	mutStat := map[string]*[4]int64{}
+	ctrl := map[string]*[2]int64{}
+	diverge := map[string]string{}
+	leakBy := map[string]int64{}
+	pool.Run(shards, pool.Options{}, func(si int, rb json.RawMessage) {
+		var r rec
+		json.Unmarshal(rb, &r)
+		switch r.Kind {
+		case "count":
+			total += r.N
+			na += r.NA
+			runs += r.Runs
+			copyDiff += r.CopyDiff
+			for k, n := range r.Uneval {
+				uneval[k] += n
+			}
+			for k, v := range r.Matrix {
+				if matrix[k] == nil {
+					matrix[k] = &cell{}
+				}
+				matrix[k].Cases += v.Cases
+				matrix[k].Effective += v.Effective
+				matrix[k].Leaked += v.Leaked
+			}
+			for k, v := range r.MutStat {
+				if mutStat[k] == nil {
+					mutStat[k] = &[4]int64{}
+				}
+				for i := range v {
+					mutStat[k][i] += v[i]
+				}
+			}
+			for k, v := range r.Diverge {
+				if _, ok := diverge[k]; !ok {
+					diverge[k] = v
+				}
+			}
+			for k, v := range r.LeakBy {
+				leakBy[k] += v
+			}
+			for k, v := range r.Controls {
+				if ctrl[k] == nil {
+					ctrl[k] = &[2]int64{}
+				}
+				ctrl[k][0] += v[0]
+				ctrl[k][1] += v[1]
+			}
+			for k, n := range r.Counts {
+				for i := int64(1); i < n; i++ {
+					c.Fail(k, "", 1<<30, nil, "")
+				}
+			}
+		case "fail":
+			c.Fail(r.Key, r.Clause, r.Size, r.Case, r.Detail)
+		case "sample":
+			c.Sample(r.Sample)
+		}
+	}, func(d pool.Death) {
+		c.Fail("worker-death:"+runner.FatalFrame(d.Stderr), "crash", 0, map[string]any{"item": d.Item, "reason": d.Reason}, d.Stderr)
+	})
+
+	// evidence: the route x class matrix, per-mutation guard statistics, controls
+	mrows := map[string]string{}
+	var unevalTotal int64
+	for k, v := range matrix {
+		mrows[k] = fmt.Sprintf("cases=%d effective=%d leaked=%d", v.Cases, v.Effective, v.Leaked)
+		if v.Leaked > 0 {
+			c.Outcome("leak " + k)
+		} else {
+			c.Outcome("independent " + k)
+		}
+	}
+	for _, n := range uneval {
+		unevalTotal += n
+	}
+	ms := map[string]string{}
+	var ineffective []string
+	for k, v := range mutStat {
+		ms[k] = fmt.Sprintf("steps=%d changed_mutated_name=%d model_agrees=%d model_differs=%d", v[0], v[1], v[2], v[3])
+		if v[1] == 0 {
+			ineffective = append(ineffective, k)
+		}
+	}
+	sort.Strings(ineffective)
+	cs := map[string]string{}
+	var through int64
+	for k, v := range ctrl {
+		cs[k] = fmt.Sprintf("effective_writes=%d shown_through=%d", v[0], v[1])
+		through += v[1]
+	}
+	c.Set("matrix_route_x_class", mrows)
+	c.Set("mutation_guard", ms)
+	c.Set("model_divergence_samples", diverge)
+	c.Set("leaking_steps_by_mutation", leakBy)
+	c.Set("mutations_without_any_effect_today", ineffective)
+	c.Set("controls", cs)
+	c.Set("cases_not_applicable", na)
+	c.Set("cases_not_evaluable", uneval)
+	c.Set("copies_unequal_to_original_after_route", copyDiff)
+	c.Set("shapes", len(shapes()))
+	c.Set("routes", len(routes()))
+	c.Set("mutations", len(mutations()))
+	c.Set("route_chains", chains)
+	c.Assume("closure capture is excluded (origami closures share the defining frame by design)")
+	c.Assume("snapshots are json_encode + serialize of each live name; a leak that neither encoder can show is not seen")
+	c.Assume("mutations whose own effect differs from PHP (mutation_guard.model_differs) are still checked for leaks; their semantics belong to other properties")
+	c.Assume("reference controls are sensitivity controls: a missing write-through of `&` is reported in coverage.controls, not as a violation (the statement does not demand it); object handles are asserted")
+	// vacuity guards
+	if through == 0 {
+		c.HarnessError("vacuous: no control case showed a write through a reference/handle — the snapshot oracle may be blind")
+	}
+	for _, r := range routes() {
+		var eff int64
+		for k, v := range matrix {
+			if strings.HasPrefix(k, r.name+"|") {
+				eff += v.Effective
+			}
+		}
+		if eff == 0 {
+			c.HarnessError("vacuous: route %s has no evaluable case in which the mutated name changed", r.name)
+		}
+	}
+	if unevalTotal*5 > total {
+		c.HarnessError("more than 20%% of the cases could not be evaluated (%d of %d)", unevalTotal, total)
+	}
+	c.Finish(total-unevalTotal, runs, total-unevalTotal, fmt.Sprintf("complete matrix shape(%d) x route(%d) x mutation(%d) x mutated side, + %d reference/handle control routes, + object table, + %d two-route chains (thorough: + two-mutation sequences); oracle: snapshot of every non-mutated name identical before/after inside the same run", len(shapes()), len(routes()), len(mutations()), len(controls()), chains))
+}
+
+func replay(c *ev.Check) {
+	var cs struct {
+		Kind string          `json:"kind"`
+		Case json.RawMessage `json:"case"`
+	}
+	key, err := ev.LoadReplay(c.Replay, &cs)
+	if err != nil {
+		c.HarnessError("replay: %v", err)
+		c.Finish(1, 1, 1, "replay")
+	}
+	if cs.Kind == "object" {
+		var oc objCase
+		json.Unmarshal(cs.Case, &oc)
+		cl, detail, _ := judgeObj(oc)
+		fmt.Println(detail)
+		if cl != "" {
+			c.Fail(key, cl, 0, oc, detail)
+		}
+		c.Finish(1, 1, 1, "replay")
+	}
+	var k kase
+	json.Unmarshal(cs.Case, &k)
+	fmt.Println(k.build().script)
+	fmt.Println(describe(k))
+	o := judge(k)
+	jc := &judgeCache{m: map[string]outcome{}}
+	for _, f := range findings(k, o, jc) {
+		c.Fail(f.Key, f.Clause, 0, caseJSON(f.Case), f.Detail)
+	}
+	_ = key
+	c.Finish(1, 1, 1, "replay")
 }
